@@ -36,6 +36,26 @@ class SchedLoop(asyncio.SelectorEventLoop):
         self.stuck = False
         self.set_task_factory(self._factory)
 
+    # -- no self-pipe: nothing ever wakes this loop from another thread, and thousands of
+    #    loops are created per process (one per run), so they must not hold sockets ----------
+    def _make_self_pipe(self):
+        self._ssock = None
+        self._csock = None
+
+    def _close_self_pipe(self):
+        pass
+
+    def _write_to_self(self):
+        pass
+
+    def release_fds(self):
+        """give back the selector's descriptor once a run is over (the loop object itself is
+        kept alive by the caller so that no finaliser runs)"""
+        try:
+            self._selector.close()
+        except Exception:
+            pass
+
     # -- virtual time -------------------------------------------------------
     def time(self):
         return self._vtime
